@@ -385,6 +385,17 @@ def free_cases(rng, n):
     for k, (a, b, c) in enumerate([(4000, 8000, 4000), (1, 2, 1), (100, 16000, 300), (0, 600, 600), (5000, 5000, 100),
                                    (499, 500, 15000), (8000, 4000, 1000), (13, 16384, 0)]):
         out.append("mode=free v=%d ops=G%d:%d:%d,S" % (1000 + k, a, b, c))
+    # three peers on one block, the leader's connection goes away in the middle of its PIECE, the followers (at
+    # different compared positions) go on, in both orders
+    for k, (a, b, c) in enumerate([(6000, 2000, 4000), (6000, 4000, 2000), (16000, 1, 15999), (500, 100, 300), (9000, 9000, 100),
+                                   (3000, 0, 2999), (12000, 600, 11000)]):
+        for order in (0, 1):
+            out.append("mode=free v=%d ops=H%d:%d:%d:%d" % (2000 + 2 * k + order, a, b, c, order))
+    # upload side: served, choked, pause, unchoked again, request for the same / another piece; plain and encrypted
+    for role in ("seed", "leechdone", "iseed", "leech"):
+        for enc in (0, 1):
+            for (i, j, pause) in ((0, 0, 11), (0, 0, 3), (0, 1, 11), (4, 4, 31), (7, 7, 11)):
+                out.append("mode=freeup role=%s enc=%d piece=%d pause=%d again=%d" % (role, enc, i, pause, j))
     return out
 
 
